@@ -260,7 +260,7 @@ def _create_regex(pat: str) -> re.Pattern[str]:
         # a trailing backslash is a literal backslash
         regex += re.escape("\\")
 
-    return re.compile(regex)
+    return re.compile(regex, re.DOTALL)
 
 
 def match_with_wildcard(name: str, pattern: str | None) -> bool:
